@@ -78,6 +78,8 @@ def _real_gather(inst, which, req):
             return ("ok", list(fi.helper_source))
     except KeyError as e:
         return ("keyerror", e.args[0])
+    except RecursionError:
+        return ("recursion", "")
     raise AssertionError(which)
 
 
